@@ -301,6 +301,10 @@ impl Run {
             let to = self.w.name_of(b["to_address"].as_str().unwrap_or(""));
             let c = &b["amount"][0];
             let denom = c["denom"].as_str().unwrap_or("?");
+            if denom == DEP && to == "sink" {
+                // a proposal message that spends the deposit denomination out of the multisig's pool
+                return rec("msg", format!("drain:{}", c["amount"].as_str().unwrap_or("?")), "".into(), "".into(), num(&c["amount"]));
+            }
             if denom == DEP {
                 return rec("refund", "".into(), to, "".into(), num(&c["amount"]));
             }
@@ -468,6 +472,8 @@ impl Run {
             "bank" => vec![BankMsg::Send { to_address: sink.to_string(), amount: coins(1, OTHER) }.into()],
             "bankbig" => vec![note(&sink, format!("{nn}")), BankMsg::Send { to_address: sink.to_string(), amount: coins(1_000_000_000, OTHER) }.into()],
             "flaky" => vec![note(&sink, format!("{nn}")), note(&flaky, format!("{nn}"))],
+            // the members decide to spend one deposit's worth of the deposit denomination (native deposits)
+            "drain" => vec![BankMsg::Send { to_address: sink.to_string(), amount: coins(self.dep_amt.max(1) as u128, DEP) }.into()],
             "reexec" => vec![selfmsg(json!({"execute":{"proposal_id":next_id}}))],
             "reclose" => vec![selfmsg(json!({"close":{"proposal_id":next_id}}))],
             "revote" => vec![selfmsg(json!({"vote":{"proposal_id":next_id,"vote":"yes"}}))],
@@ -677,7 +683,7 @@ pub fn random_run(rng: &mut Rng, run_no: u64, len: usize, out: &mut Out) {
         let st = match rng.below(100) {
             0..=17 => {
                 if nprops >= 4 { json!({"act":"advance","by":"env","args":{"dh":1,"dt":3}}) } else {
-                let kind = *rng.pick(&["none", "sink", "sink", "sink2", "bank", "bankbig", "flaky", "reexec", "reclose", "revote"]);
+                let kind = if run.dep_kind == "native" && rng.chance(1, 8) { "drain" } else { *rng.pick(&["none", "sink", "sink", "sink2", "bank", "bankbig", "flaky", "reexec", "reclose", "revote"]) };
                 let latest = match rng.below(6) {
                     0 => json!({"k":"h","v": run.w.h + rng.range(0, 5)}),
                     1 => json!({"k":"t","v": run.w.t + rng.range(0, 40)}),
